@@ -108,6 +108,7 @@ def plan_iter(w: World, op: dict) -> Plan:
 # visit
 # ------------------------------------------------------------------------------
 SIGNALS = ("SKIP_cls", "SKIP_inst", "SKIP_raise", "SKIP_raise_cls",
+           "SKIPself_inst", "SKIPself_raise",  # SkipBranch(and_self=False): still a skip here
            "STOP_false", "STOP_cls", "STOP_inst", "STOP_raise", "STOP_raise_cls",
            "STOPIT_cls", "STOPIT_inst", "STOPIT_raise")
 
@@ -224,6 +225,10 @@ def plan_visit(w: World, op: dict) -> Plan:
             raise nt.SkipBranch()
         if sig == "SKIP_raise_cls":
             raise nt.SkipBranch
+        if sig == "SKIPself_inst":
+            return nt.SkipBranch(and_self=False)
+        if sig == "SKIPself_raise":
+            raise nt.SkipBranch(and_self=False)
         if sig == "STOP_false":
             return False
         if sig == "STOP_cls":
